@@ -1,5 +1,6 @@
 use crate::core::Prop;
 
+pub mod c04;
 pub mod c05;
 pub mod c06;
 pub mod c10;
@@ -23,7 +24,7 @@ pub mod c29;
 pub mod c30;
 
 pub fn all() -> Vec<Prop> {
-    vec![c05::PROP, c06::PROP, c10::PROP, c11::PROP, c13::PROP, c14::PROP, c15::PROP, c16::PROP, c17::PROP, c18::PROP, c21::PROP, c22::PROP, c23::PROP, c24::PROP, c25::PROP, c26::PROP, c27::PROP, c28::PROP, c29::PROP]
+    vec![c04::PROP, c05::PROP, c06::PROP, c10::PROP, c11::PROP, c13::PROP, c14::PROP, c15::PROP, c16::PROP, c17::PROP, c18::PROP, c21::PROP, c22::PROP, c23::PROP, c24::PROP, c25::PROP, c26::PROP, c27::PROP, c28::PROP, c29::PROP]
 }
 
 /// Properties served by the `vcheck-cli` binary (needs the `cli` feature).
